@@ -8,7 +8,7 @@ from .. import AnalysisError
 from ..astutil import Deps, is_name
 from ..cfg import CFG, Node
 from ..engine import Analysis
-from ..kinds import NOVALUE, both, normal_only, scenario, strict
+from ..kinds import NOVALUE, Scenario, both, normal_only, scenario, strict
 from ..loader import FunctionInfo, dotted, parent, stmt_text, within
 
 ASSUMPTIONS = [
@@ -45,6 +45,10 @@ def queue_ops(an: Analysis):
 
 def check(an: Analysis) -> None:
     prog = an.prog
+
+    def _scn(g_, fi_, env_):
+        return Scenario(g_, Deps(prog, fi_), env_).skip
+
     enq = prog.fn(f"{Q}.enqueue")
     fin = prog.fn(f"{Q}.finish")
     nxt = prog.fn(f"{Q}.__anext__")
@@ -112,7 +116,7 @@ def check(an: Analysis) -> None:
         ob.inst(enq, n.ast)
         if not (len(n.ast.args) == 1 and is_name(n.ast.args[0], rest)):  # type: ignore[union-attr]
             ob.fail(enq, n.ast, f"extends the buffer with something else than `{rest}`")
-    not_finished = scenario(g, std_env(enq, finished=False))
+    not_finished = _scn(g, enq, std_env(enq, finished=False))
     lo, hi = g.count_range(lambda n: n in sinks, g.entry, lambda n: n.kind == "exit-return", skip_edge=both(normal_only, not_finished))
     if (lo, hi) != (1, 1):
         ob.fail(enq, (sinks[0].ast if sinks else None), f"`{first}` is delivered {lo}..{hi} times on normal paths of enqueue (must be exactly once: lost or duplicated element)")
@@ -124,11 +128,11 @@ def check(an: Analysis) -> None:
         if w is not None:
             ob.fail(enq, extends[0].ast, "the remaining elements are buffered before the first one was delivered (order broken)", CFG.show_path(w))
     for state in ("none", "done"):
-        w = g.search([g.entry], lambda n: n in handoff, skip_edge=scenario(g, std_env(enq, finished=False, waiting=state)))
+        w = g.search([g.entry], lambda n: n in handoff, skip_edge=_scn(g, enq, std_env(enq, finished=False, waiting=state)))
         if w is not None:
             ob.fail(enq, handoff[0].ast, f"the element is handed to a waiter that is {'absent' if state == 'none' else 'already done'} (element lost / InvalidStateError)", CFG.show_path(w))
     if handoff:
-        w = g.search([g.entry], lambda n: n in appends, skip_edge=both(normal_only, scenario(g, std_env(enq, finished=False, waiting="pending"))))
+        w = g.search([g.entry], lambda n: n in appends, skip_edge=both(normal_only, _scn(g, enq, std_env(enq, finished=False, waiting="pending"))))
         # with a pending waiter the element must be handed over, not buffered behind it
         if w is not None:
             ob.fail(enq, appends[0].ast, "with a pending receiver the element is buffered instead of handed over (receiver keeps waiting)", CFG.show_path(w))
@@ -137,7 +141,7 @@ def check(an: Analysis) -> None:
 
     # ------------------------------------------------------------------ C17.3 enqueue after finish fails before any mutation
     ob = an.ob("C17.3", "K2", "on a finished queue enqueue raises before touching the buffer or the waiter", [f"{Q}.enqueue"])
-    fin_sc = scenario(g, std_env(enq, finished=True))
+    fin_sc = _scn(g, enq, std_env(enq, finished=True))
     ob.inst(enq, None, "scenario: finished")
     w = g.search([g.entry], lambda n: n in sinks or n in extends, skip_edge=fin_sc)
     if w is not None:
@@ -157,29 +161,36 @@ def check(an: Analysis) -> None:
         ob.inst(nxt, n.ast)
     asrt = lambda n: n.meta.get("assert") is not None  # noqa: E731
     # (a) buffer non-empty -> returns popleft without suspending
-    sc = both(normal_only, scenario(gn, std_env(nxt, queue=True)))
+    sc = both(normal_only, _scn(gn, nxt, std_env(nxt, queue=True)))
     w = gn.must_pass(lambda n: n in pops, exits=("exit-return",), skip_edge=sc)
     if w is not None or not pops:
         ob.fail(nxt, None, "with a buffered element a path does not take it from the left end", CFG.show_path(w))
-    w = gn.search([gn.entry], lambda n: n in awaits or n in reason_raises, skip_edge=scenario(gn, std_env(nxt, queue=True)))
+    w = gn.search([gn.entry], lambda n: n in awaits or n in reason_raises, skip_edge=_scn(gn, nxt, std_env(nxt, queue=True)))
     if w is not None:
         ob.fail(nxt, w[-1].ast, "buffered elements are not delivered first", CFG.show_path(w))
+    from ..astutil import unwrap
+
     for r in [n for n in gn.nodes if n.kind == "return"]:
         v = r.ast.value  # type: ignore[union-attr]
         if isinstance(v, ast.Call) and any(v is p.ast for p in pops):
             continue
         if isinstance(v, ast.Await):
             continue
+        if isinstance(v, ast.Name):
+            owner = dn.owner(v.id)
+            vals = [unwrap(x) for k, x in dn.defs(owner, v.id) if k == "value" and not getattr(parent(x), "_inline_init", False)] if owner is not None else []
+            if vals and all(isinstance(x, ast.Await) or (isinstance(x, ast.Call) and any(x is p.ast for p in pops)) for x in vals):
+                continue
         ob.fail(nxt, r.ast, "__anext__ returns something that is neither the popped element nor the awaited hand-off")
     # (b) empty and finished -> raises the reason, never waits
-    sc_fin = scenario(gn, std_env(nxt, queue=False, finished=True))
+    sc_fin = _scn(gn, nxt, std_env(nxt, queue=False, finished=True))
     w = gn.search([gn.entry], lambda n: n in awaits or n.kind == "exit-return", skip_edge=sc_fin)
     if w is not None:
         ob.fail(nxt, w[-1].ast if w[-1].ast is not None else None, "on a drained, finished queue a receive waits or returns instead of raising the finish reason", CFG.show_path(w))
     if not reason_raises:
         ob.fail(nxt, None, "the stored finish reason is never raised")
     # (c) empty, not finished -> waits on a fresh future published in self._waiting
-    sc_wait = both(normal_only, scenario(gn, std_env(nxt, queue=False, finished=False)))
+    sc_wait = both(normal_only, _scn(gn, nxt, std_env(nxt, queue=False, finished=False)))
     w = gn.must_pass(lambda n: n in awaits, exits=("exit-return",), skip_edge=sc_wait)
     if w is not None or not awaits:
         ob.fail(nxt, None, "on an empty unfinished queue a receive does not wait", CFG.show_path(w))
@@ -210,10 +221,10 @@ def check(an: Analysis) -> None:
     if not stores:
         ob.fail(fin, None, "finish never stores the finish reason")
     else:
-        w = gf.search([gf.entry], lambda n: n in stores or n in fails, skip_edge=scenario(gf, std_env(fin, finished=True)))
+        w = gf.search([gf.entry], lambda n: n in stores or n in fails, skip_edge=_scn(gf, fin, std_env(fin, finished=True)))
         if w is not None:
             ob.fail(fin, w[-1].ast, "finishing an already finished queue changes its reason / disturbs the receiver", CFG.show_path(w))
-        w = gf.must_pass(lambda n: n in stores, exits=("exit-return",), skip_edge=both(normal_only, scenario(gf, std_env(fin, finished=False))))
+        w = gf.must_pass(lambda n: n in stores, exits=("exit-return",), skip_edge=both(normal_only, _scn(gf, fin, std_env(fin, finished=False))))
         if w is not None:
             ob.fail(fin, stores[0].ast, "a path through finish leaves the queue unfinished", CFG.show_path(w))
         v = stores[0].ast.value  # type: ignore[union-attr]
@@ -223,11 +234,11 @@ def check(an: Analysis) -> None:
     if not fails:
         ob.fail(fin, None, "a pending receive is never woken with the finish reason")
     else:
-        w = gf.must_pass(lambda n: n in fails, exits=("exit-return",), skip_edge=both(normal_only, scenario(gf, std_env(fin, finished=False, waiting="pending"))))
+        w = gf.must_pass(lambda n: n in fails, exits=("exit-return",), skip_edge=both(normal_only, _scn(gf, fin, std_env(fin, finished=False, waiting="pending"))))
         if w is not None:
             ob.fail(fin, fails[0].ast, "with a pending receiver a path through finish leaves it waiting forever", CFG.show_path(w))
         for state in ("none", "done"):
-            w = gf.search([gf.entry], lambda n: n in fails, skip_edge=scenario(gf, std_env(fin, finished=False, waiting=state)))
+            w = gf.search([gf.entry], lambda n: n in fails, skip_edge=_scn(gf, fin, std_env(fin, finished=False, waiting=state)))
             if w is not None:
                 ob.fail(fin, fails[0].ast, f"finish touches a waiter that is {'absent' if state == 'none' else 'already done'}", CFG.show_path(w))
         a = fails[0].ast.args[0] if fails[0].ast.args else None  # type: ignore[union-attr]
